@@ -53,13 +53,26 @@ class Skel:
 
 
 class ChildLayout(emit.Layout):
-    """CHILDREN / USERBLOCK rendered as a region that may raise or return."""
+    """CHILDREN / USERBLOCK rendered as a region that may raise or return.
+    With `inner` set (a list of (events, user_header)), the first CHILDREN of the
+    outer construct is instantiated with those constructs (thorough tier:
+    construct-inside-construct composition)."""
+
+    inner = None
 
     def _run(self, events, res, st, user_header, star_unroll, children):
         for ev in events:
             if ev[0] in ("CHILDREN", "USERBLOCK"):
                 self._emit(res, st, "if __RET__: return ''", ev)
                 self._emit(res, st, "__CHILDREN__()" if ev[0] == "CHILDREN" else "__USERBLOCK__()", ev)
+                if ev[0] == "CHILDREN" and self.inner:
+                    inner, self.inner = self.inner, None
+                    try:
+                        for ievents, ihdr in inner:
+                            self._run(ievents, res, st, ihdr, star_unroll, children)
+                        self._emit(res, st, "__CHILDREN__()", ev)
+                    finally:
+                        self.inner = inner
             else:
                 super()._run([ev], res, st, user_header, star_unroll, children)
 
